@@ -3,12 +3,13 @@
 # Runs the given checks against a scratch worktree of /repo HEAD with the seeded change applied (VERIF_REPO), never touching /repo.
 # The final confirmation of DESIGN.md 0.5 uses tools/confirm_seed.sh, which applies the patch to /repo itself and undoes it.
 name=$1; tier=$2; shift 2
+root=$(cd "$(dirname "$0")/.." && pwd)      # the checks of *this* copy of /verif are used (a `vp run` snapshot works on its own code)
 wt=${SEED_WT:-/tmp/seedv}
 # <seed name> may also be the path of any patch file (e.g. a behaviour-preserving refactoring used to look for false alarms)
-if [ -f "$name" ]; then patch=$name; name=$(basename $name .diff); else patch=/verif/seeded/$name/patch.diff; fi
+if [ -f "$name" ]; then patch=$name; name=$(basename $name .diff); else patch=$root/seeded/$name/patch.diff; fi
 [ -d $wt ] || git -C /repo worktree add -q --detach $wt HEAD
 cd $wt && git checkout -q --detach $(git -C /repo rev-parse HEAD) && git checkout -q -- . && git apply $patch || { echo "patch does not apply"; exit 3; }
-cd /verif
+cd $root
 for id in "$@"; do
     VERIF_REPO=$wt ./vcheck $id $tier > /tmp/try_${name}_${id}.log 2>&1
     rc=$?
